@@ -1,6 +1,7 @@
 import LexgenModel.Proofs.Backtrack
 import LexgenModel.Proofs.MaxMunch
 import LexgenModel.Proofs.NextProtocol
+import LexgenModel.Proofs.CheckerSound
 /-!
 # C01 — Longest match with first-rule priority, recovered by backtracking
 
@@ -51,5 +52,24 @@ theorem C01_flags_sound (d d' : DFA Nat) (hT : Backtrack.TargetsOK d) (h : updat
     (p1 : Backtrack.Path d i a) (hacc : Backtrack.accOf d a = true) (hstep : t ∈ DFA.succs (d.st a))
     (p2 : Backtrack.Path d t u) : (d'.st u).backtrack = true :=
   Backtrack.backtrack_sound d d' hT h i a t u hi hini p1 hacc hstep p2
+
+/-- The hypotheses of these theorems are what the decidable checker `machineWF` establishes; it is
+evaluated on the machine the macro actually produced, on every run. -/
+theorem C01_checker_establishes_hypotheses (cfg : Config σ τ ε) (nCtx : Nat)
+    (h : (machineWF cfg.dfa cfg.entries nCtx).all = true) : MachineOK cfg :=
+  machineOK_of_checker cfg nCtx h
+
+/-- non-vacuity: the machine of `'a' 'b'+ = 0, 'a' = 1` (states: 0 entry; 1 after `a`, accepting
+rule 1; 2 after `ab+`, accepting rule 0, backtrack flag set) satisfies the checker, hence `MachineOK`. -/
+def exampleMachine : DFA Trans :=
+  [ { initial := true, chars := [(97, Trans.goto 1)] },
+    { chars := [(98, Trans.goto 2)], accepting := [{ value := 1, ctx := none }], preds := [0] },
+    { chars := [(98, Trans.goto 2)], accepting := [{ value := 0, ctx := none }], preds := [1, 2], backtrack := true } ]
+
+example : (machineWF exampleMachine [] 0).all = true := by decide
+
+example : MachineOK ({ dfa := exampleMachine, ctxs := [], entries := [], actions := (fun _ => Action.skip),
+    width := (fun _ => 1), input := none } : Config Unit Unit Unit) :=
+  machineOK_of_checker _ 0 (by decide)
 
 end Lexgen
